@@ -140,7 +140,7 @@ def check_c19(seed, tier):
     install(TFS, HOLDER)
     viol, evals, distinct, samples = [], 0, set(), []
     budget = 40 if tier == "quick" else 700
-    for scenario in ("same-variable", "different-variables", "pickled-copy", "three-threads"):
+    for scenario in ("same-variable", "different-variables", "pickled-copy", "three-threads", "single-chunks"):
         level = rng.choice(["1.1", "1.5"])
         cfg = {"seed": rng.randrange(10**9), "level": level, "images": [("HH", None), ("HV", None)], "n_lines": 6, "n_pixels": 3}
         prod = products.build(cfg)
@@ -153,6 +153,8 @@ def check_c19(seed, tier):
                 sels = [("HH", {"rows": slice(1, 5)}), ("HV", {"rows": slice(0, 4, 2)})]
             if scenario == "three-threads":
                 sels = [("HH", {"rows": slice(0, 2)}), ("HH", {"rows": slice(4, 6)}), ("HV", {"rows": 3})]
+            if scenario == "single-chunks":
+                sels = [("HH", {"rows": slice(2, 4)}), ("HV", {"rows": slice(2, 4)})]
             trees = [t] * len(sels)
             if scenario == "pickled-copy":
                 trees = [t, pickle.loads(pickle.dumps(t))]
@@ -195,6 +197,18 @@ def check_c19(seed, tier):
                             viol.append({"case": case, "what": f"thread {i} raised {type(errs[i]).__name__}: {errs[i]}"[:200]})
                         elif not products.same_bits(got[i], want[i]):
                             viol.append({"case": case, "what": f"thread {i} loaded values that differ from its sequential load"})
+                if ok:
+                    # aftermath: a single-threaded load issued after the concurrent phase is the trivial interleaving "later" —
+                    # state left behind by the racing loads must not change what it returns
+                    # (only the first load after the race can see e.g. a one-entry memo left inconsistent: rotate who goes first)
+                    for i in [(count + j) % len(sels) for j in range(len(sels))]:
+                        try:
+                            g, ix = sels[i]
+                            again = trees[i][f"imagery/{g}/data"].isel(**ix).values
+                            if not products.same_bits(again, want[i]):
+                                viol.append({"case": case, "what": f"a sequential load of selection {i} issued after the concurrent loads differs from the reference"})
+                        except Exception as e:  # noqa: BLE001
+                            viol.append({"case": case, "what": f"sequential load {i} after the concurrent loads raised {type(e).__name__}: {e}"[:200]})
                 if len(samples) < 2 and ok:
                     samples.append({"scenario": scenario, "schedule": sched, "yield_points": [w[0] for _, w in s.trace][:10]})
                 prefix = next_prefix(s.choices)
